@@ -40,13 +40,13 @@ BUDGET = {
 BOUNDS = {
     "quick": "T-chain template with generic enter/exit/... callbacks on machine and a listener (incl. on_enter_a); model holding nothing or any of the 3 states; "
     "start_value absent or 'b'; engines sync rtc, sync non-rtc, async; an initial enter callback may send one nested event {go, hop}; 0..2 extra "
-    "activate_initial_state() calls; a history prefix of 0..1 events; re-construction of a second machine over the same model followed by one event on it; "
+    "activate_initial_state() calls; a history prefix of 0..1 events; re-construction of a second machine over the same model followed by one event on it; a sibling instance over an empty model with the other start_value; "
     "async: first action after construction is an explicit activation or an event; a variant whose states b, c have the falsy values 0 and ''; "
     "a machine constructed from inside each callback group of another, busy machine.",
     "thorough": "history prefix of 0..2 events.",
 }
 OUTSIDE = "several machines sharing one model concurrently; a never-activated async machine whose model is given a state by someone else before its first event"
-OBLIGATIONS = ["nested-construction", "falsy-stored-value", "activated-once", "resumed", "reactivation-noop", "reconstructed", "initial-enter-sent-event", "async-explicit-activation", "async-activation-by-first-event", "start-value"]
+OBLIGATIONS = ["sibling-other-start-value", "nested-construction", "falsy-stored-value", "activated-once", "resumed", "reactivation-noop", "reconstructed", "initial-enter-sent-event", "async-explicit-activation", "async-activation-by-first-event", "start-value"]
 ASSUMPTIONS = [
     "nothing stored = the model attribute is None (the library's documented trigger for activation)",
     "on the async engine construction runs no callback; activation happens at the first loop entry (explicit activation or first event)",
@@ -244,4 +244,28 @@ def run(ctx, params):
     acc = Acceptor(am, script.log, rtc=rtc, is_async=is_async, start_id=start_id)
     new = accept_or_mismatch(acc, cur, ["go"], out, "second:" + tag, script.log)
     ctx.check(sm2.current_state.id == new, f"wrong-state:second:{tag}")
+    # a sibling instance of the same class over an empty model, with the *other* start_value: its own activation
+    del script.log[:]
+    with ctx.notracing():
+        m3 = type(model)()
+        m3.state = None
+    kw3 = {"rtc": rtc, "listeners": listeners}
+    other_start = "a" if params["sv"] else "b"
+    if not params["sv"]:
+        kw3["start_value"] = vals["b"]
+    script.sm = None  # callbacks of the sibling read *its* current state (through the injected machine)
+    out = outcome_of(lambda: r["cls"](m3, **kw3), r["cls"])
+    if out[0] != "ret":
+        raise Mismatch(f"sibling-construction-raised:{tag}", f"{out!r}")
+    sm3 = out[1]
+    script.sm = sm3
+    if is_async:
+        out3 = outcome_of(lambda: sm3.activate_initial_state(), sm3)
+        if out3[0] != "ret":
+            raise Mismatch(f"sibling-activation-raised:{tag}", f"{out3!r}")
+    acc = Acceptor(am, script.log, rtc=rtc, is_async=is_async, start_id=other_start)
+    cur3 = accept_or_mismatch(acc, None, ["__initial__"], ("ret", ANY), "sibling:" + tag, script.log)
+    if sm3.current_state.id != other_start or cur3 != other_start:
+        raise Mismatch(f"sibling-started-in-wrong-state:{tag}", f"start_value={'absent' if params['sv'] else 'b'}: expected {other_start}, got {sm3.current_state.id}")
+    ctx.cover("sibling-other-start-value")
     ctx.note({"stored": stored, "start_value": params["sv"], "history": n_hist, "final": new})
